@@ -10,33 +10,15 @@ Base/Res.vos Base/Res.vok Base/Res.required_vos: Base/Res.v
 Gen/Consts.vo Gen/Consts.glob Gen/Consts.v.beautified Gen/Consts.required_vo: Gen/Consts.v 
 Gen/Consts.vio: Gen/Consts.v 
 Gen/Consts.vos Gen/Consts.vok Gen/Consts.required_vos: Gen/Consts.v 
-Gen/TsigConsts.vo Gen/TsigConsts.glob Gen/TsigConsts.v.beautified Gen/TsigConsts.required_vo: Gen/TsigConsts.v 
-Gen/TsigConsts.vio: Gen/TsigConsts.v 
-Gen/TsigConsts.vos Gen/TsigConsts.vok Gen/TsigConsts.required_vos: Gen/TsigConsts.v 
 Model/NameWire.vo Model/NameWire.glob Model/NameWire.v.beautified Model/NameWire.required_vo: Model/NameWire.v Base/Res.vo Base/Octets.vo Gen/Consts.vo
 Model/NameWire.vio: Model/NameWire.v Base/Res.vio Base/Octets.vio Gen/Consts.vio
 Model/NameWire.vos Model/NameWire.vok Model/NameWire.required_vos: Model/NameWire.v Base/Res.vos Base/Octets.vos Gen/Consts.vos
-Model/TsigMsg.vo Model/TsigMsg.glob Model/TsigMsg.v.beautified Model/TsigMsg.required_vo: Model/TsigMsg.v Base/Res.vo Base/Octets.vo Base/ListX.vo Gen/Consts.vo Gen/TsigConsts.vo Model/NameWire.vo
-Model/TsigMsg.vio: Model/TsigMsg.v Base/Res.vio Base/Octets.vio Base/ListX.vio Gen/Consts.vio Gen/TsigConsts.vio Model/NameWire.vio
-Model/TsigMsg.vos Model/TsigMsg.vok Model/TsigMsg.required_vos: Model/TsigMsg.v Base/Res.vos Base/Octets.vos Base/ListX.vos Gen/Consts.vos Gen/TsigConsts.vos Model/NameWire.vos
 Proofs/NameWireP.vo Proofs/NameWireP.glob Proofs/NameWireP.v.beautified Proofs/NameWireP.required_vo: Proofs/NameWireP.v Base/ListX.vo Model/NameWire.vo Spec/NameWireS.vo Spec/NameRepr.vo
 Proofs/NameWireP.vio: Proofs/NameWireP.v Base/ListX.vio Model/NameWire.vio Spec/NameWireS.vio Spec/NameRepr.vio
 Proofs/NameWireP.vos Proofs/NameWireP.vok Proofs/NameWireP.required_vos: Proofs/NameWireP.v Base/ListX.vos Model/NameWire.vos Spec/NameWireS.vos Spec/NameRepr.vos
 Proofs/NameWireSP.vo Proofs/NameWireSP.glob Proofs/NameWireSP.v.beautified Proofs/NameWireSP.required_vo: Proofs/NameWireSP.v Base/ListX.vo Spec/NameWireS.vo
 Proofs/NameWireSP.vio: Proofs/NameWireSP.v Base/ListX.vio Spec/NameWireS.vio
 Proofs/NameWireSP.vos Proofs/NameWireSP.vok Proofs/NameWireSP.required_vos: Proofs/NameWireSP.v Base/ListX.vos Spec/NameWireS.vos
-Proofs/TsigEncP.vo Proofs/TsigEncP.glob Proofs/TsigEncP.v.beautified Proofs/TsigEncP.required_vo: Proofs/TsigEncP.v Base/ListX.vo Model/TsigMsg.vo Spec/Tsig8945S.vo
-Proofs/TsigEncP.vio: Proofs/TsigEncP.v Base/ListX.vio Model/TsigMsg.vio Spec/Tsig8945S.vio
-Proofs/TsigEncP.vos Proofs/TsigEncP.vok Proofs/TsigEncP.required_vos: Proofs/TsigEncP.v Base/ListX.vos Model/TsigMsg.vos Spec/Tsig8945S.vos
-Proofs/TsigInjP.vo Proofs/TsigInjP.glob Proofs/TsigInjP.v.beautified Proofs/TsigInjP.required_vo: Proofs/TsigInjP.v Base/ListX.vo Model/TsigMsg.vo Spec/Tsig8945S.vo Spec/TsigRepr.vo Proofs/TsigEncP.vo
-Proofs/TsigInjP.vio: Proofs/TsigInjP.v Base/ListX.vio Model/TsigMsg.vio Spec/Tsig8945S.vio Spec/TsigRepr.vio Proofs/TsigEncP.vio
-Proofs/TsigInjP.vos Proofs/TsigInjP.vok Proofs/TsigInjP.required_vos: Proofs/TsigInjP.v Base/ListX.vos Model/TsigMsg.vos Spec/Tsig8945S.vos Spec/TsigRepr.vos Proofs/TsigEncP.vos
-Proofs/TsigMsgP.vo Proofs/TsigMsgP.glob Proofs/TsigMsgP.v.beautified Proofs/TsigMsgP.required_vo: Proofs/TsigMsgP.v Base/ListX.vo Model/TsigMsg.vo Spec/Tsig8945S.vo Spec/TsigRepr.vo Spec/NameRepr.vo Proofs/NameWireP.vo Proofs/TsigEncP.vo
-Proofs/TsigMsgP.vio: Proofs/TsigMsgP.v Base/ListX.vio Model/TsigMsg.vio Spec/Tsig8945S.vio Spec/TsigRepr.vio Spec/NameRepr.vio Proofs/NameWireP.vio Proofs/TsigEncP.vio
-Proofs/TsigMsgP.vos Proofs/TsigMsgP.vok Proofs/TsigMsgP.required_vos: Proofs/TsigMsgP.v Base/ListX.vos Model/TsigMsg.vos Spec/Tsig8945S.vos Spec/TsigRepr.vos Spec/NameRepr.vos Proofs/NameWireP.vos Proofs/TsigEncP.vos
-Props/C11.vo Props/C11.glob Props/C11.v.beautified Props/C11.required_vo: Props/C11.v Base/ListX.vo Model/TsigMsg.vo Spec/Tsig8945S.vo Spec/TsigRepr.vo Proofs/TsigEncP.vo Proofs/TsigMsgP.vo Proofs/TsigInjP.vo
-Props/C11.vio: Props/C11.v Base/ListX.vio Model/TsigMsg.vio Spec/Tsig8945S.vio Spec/TsigRepr.vio Proofs/TsigEncP.vio Proofs/TsigMsgP.vio Proofs/TsigInjP.vio
-Props/C11.vos Props/C11.vok Props/C11.required_vos: Props/C11.v Base/ListX.vos Model/TsigMsg.vos Spec/Tsig8945S.vos Spec/TsigRepr.vos Proofs/TsigEncP.vos Proofs/TsigMsgP.vos Proofs/TsigInjP.vos
 Props/C14.vo Props/C14.glob Props/C14.v.beautified Props/C14.required_vo: Props/C14.v Base/ListX.vo Model/NameWire.vo Spec/NameWireS.vo Spec/NameRepr.vo Proofs/NameWireP.vo Proofs/NameWireSP.vo
 Props/C14.vio: Props/C14.v Base/ListX.vio Model/NameWire.vio Spec/NameWireS.vio Spec/NameRepr.vio Proofs/NameWireP.vio Proofs/NameWireSP.vio
 Props/C14.vos Props/C14.vok Props/C14.required_vos: Props/C14.v Base/ListX.vos Model/NameWire.vos Spec/NameWireS.vos Spec/NameRepr.vos Proofs/NameWireP.vos Proofs/NameWireSP.vos
@@ -46,9 +28,3 @@ Spec/NameRepr.vos Spec/NameRepr.vok Spec/NameRepr.required_vos: Spec/NameRepr.v 
 Spec/NameWireS.vo Spec/NameWireS.glob Spec/NameWireS.v.beautified Spec/NameWireS.required_vo: Spec/NameWireS.v Base/Res.vo Base/Octets.vo
 Spec/NameWireS.vio: Spec/NameWireS.v Base/Res.vio Base/Octets.vio
 Spec/NameWireS.vos Spec/NameWireS.vok Spec/NameWireS.required_vos: Spec/NameWireS.v Base/Res.vos Base/Octets.vos
-Spec/Tsig8945S.vo Spec/Tsig8945S.glob Spec/Tsig8945S.v.beautified Spec/Tsig8945S.required_vo: Spec/Tsig8945S.v Base/Res.vo Base/Octets.vo Spec/NameWireS.vo
-Spec/Tsig8945S.vio: Spec/Tsig8945S.v Base/Res.vio Base/Octets.vio Spec/NameWireS.vio
-Spec/Tsig8945S.vos Spec/Tsig8945S.vok Spec/Tsig8945S.required_vos: Spec/Tsig8945S.v Base/Res.vos Base/Octets.vos Spec/NameWireS.vos
-Spec/TsigRepr.vo Spec/TsigRepr.glob Spec/TsigRepr.v.beautified Spec/TsigRepr.required_vo: Spec/TsigRepr.v Model/TsigMsg.vo Spec/Tsig8945S.vo
-Spec/TsigRepr.vio: Spec/TsigRepr.v Model/TsigMsg.vio Spec/Tsig8945S.vio
-Spec/TsigRepr.vos Spec/TsigRepr.vok Spec/TsigRepr.required_vos: Spec/TsigRepr.v Model/TsigMsg.vos Spec/Tsig8945S.vos
